@@ -216,14 +216,14 @@ func replaceSequence(state *BuildState, target *BuildTarget, in string, runnable
 		if label, ok := src.Label(); ok && src.String() == in {
 			return replaceSequenceLabel(state, target, label, "", in, runnable, multiple, dir, outPrefix, hash, test, false)
 		} else if runnable && src.String() == in {
-			return src.String()
+			return quote(src.String())
 		}
 	}
 	if hash {
 		return base64.RawURLEncoding.EncodeToString(state.PathHasher.MustHash(filepath.Join(target.Label.PackageName, in), target.HashLastModified()))
 	}
 	if strings.HasPrefix(in, "/") {
-		return in // Absolute path, probably on a tool or system src.
+		return quote(in) // Absolute path, probably on a tool or system src.
 	}
 	return quote(filepath.Join(target.Label.PackageName, in))
 }
@@ -318,10 +318,15 @@ func fileDestination(target, dep *BuildTarget, out string, dir, outPrefix, test 
 	return handleDir(dep.Label.PackageName, out, dir)
 }
 
-// Encloses the given string in quotes if needed.
+// quoteReplacer rewrites the characters that stay special inside double quotes as single-quoted
+// pieces ("a"'$'"b"). Backslash escapes are deliberately not used: replaceSequencesInternal
+// turns \$ back into $ at the end.
+var quoteReplacer = strings.NewReplacer("$", `"'$'"`, "`", "\"'`'\"", `\`, `"'\'"`, `"`, `"'"'"`)
+
+// Encloses the given string in quotes if needed, so that the shell sees it as exactly one word.
 func quote(s string) string {
-	if strings.ContainsAny(s, "|&;()<>") {
-		return "\"" + s + "\""
+	if strings.ContainsAny(s, "|&;()<>$`\\\"' \t\n*?[#~") {
+		return "\"" + quoteReplacer.Replace(s) + "\""
 	}
 	return s
 }
